@@ -39,6 +39,9 @@ func (i *fieldIndex) UnmarshalJSON(data []byte) error {
 	i.nameSplit = fieldPath(i.Name)
 
 	for _, f := range i.Index {
+		if f == nil {
+			return fmt.Errorf("%w: null entry in index %s", ErrBadIndexedField, i.Name)
+		}
 		if err := f.valueTypeFromString(i.Cast); err != nil {
 			return err
 		}
